@@ -31,6 +31,7 @@ type Engine struct {
 	storeSites     map[string][]*ssa.Function // "T.f" -> functions storing to it
 	LoadSeconds    float64
 	ginits         map[*ssa.Global]*globalInit
+	eventEff       map[*ssa.Function]*eventSet
 }
 
 func FullName(f *ssa.Function) string {
